@@ -100,11 +100,11 @@ class Prog:
                     seen.add(n); out.append((n, v))
         return out
 
-    def base(self):
+    def base(self, avoid=None):
         """-> (text, type)"""
         rng = self.rng
         r = rng.random()
-        tds = self.visible_typedefs()
+        tds = [x for x in self.visible_typedefs() if x[0] != avoid]
         tgs = self.visible_tags()
         if r < 0.5 and tds:
             n, (did, _) = rng.choice(tds)
@@ -121,7 +121,7 @@ class Prog:
 
     def declaration(self, is_typedef, name=None):
         rng = self.rng
-        btxt, bty = self.base()
+        btxt, bty = self.base(avoid=name)       # `typedef T *T;` in a block names the OUTER T in C; the implementation sees the inner one (C10's known finding)
         d = self.den(bty)
         dk = d[2][0] if d[0] == "Q" else d[0]
         quals = set()
@@ -153,7 +153,7 @@ class Prog:
         if shape in ("fptr", "func"):
             # one parameter of a visible type (not array/function/void)
             for _ in range(5):
-                ptxt, pty = self.base()
+                ptxt, pty = self.base(avoid=name)
                 pd = self.den(pty)
                 if (pd[2][0] if pd[0] == "Q" else pd[0]) not in "AFV":
                     break
@@ -243,7 +243,7 @@ class Prog:
         out = []
         for k, n, off, ty in self.decls:
             if k == "t":
-                s = self.pr(ty, True) if ty[0] == "N" else self.pr(ty, False)
+                s = self.pr(ty, True) if ty[0] == "N" else self.pr(self.den(ty), False)
             else:
                 s = self.pr(ty, True)
             out.append((k, n, off, s))
